@@ -66,7 +66,7 @@ Proof.
        | |- forall x : nat, _ =>
            let x := fresh "x" in intro x;
            pose proof (X1 x) as X1x; pose proof (X6 x) as X6x; pose proof (X7 x) as X7x;
-           pose proof (X5 x) as X5x; pose proof (X8 x) as X8x; pose proof (HKD a x) as Dx; pose proof (H10 x) as Qx;
+           pose proof (X5 x) as X5x; pose proof (X8 x) as X8x; pose proof (HKD a x) as Dx; try match goal with Q : forall b, In b _ -> (_ <= b < _)%nat |- _ => pose proof (Q x) as Qx end;
            intros;
            repeat match goal with H : context [upd _ _ _ _] |- _ => revert H end;
            upd_tac; cbn [apc ab aw actx atimed acomp tok parked reason unp rel owner fresh]; intros; lists;
@@ -75,7 +75,7 @@ Proof.
        end.
   all: try mem.
   all: try (destruct (actx (A s a)) eqn:Ectx; cbn [ret_pc] in *; mem).
-  intro I. apply X8n in I. destruct I as [I _]. apply I. now left.
+  all: try match goal with X : In ?n _ -> ~ In ?n (?n :: _) /\ _ |- ~ In ?n _ => let I := fresh in intro I; apply X in I; destruct I as [I _]; apply I; now left end.
 Qed.
 
 Lemma inv2_reach i s o : 0 <= i -> Reach2 i s o -> Inv s /\ Ext s o.
@@ -91,7 +91,7 @@ Theorem pop_never_empty i s a : 0 <= i -> Reach i s -> apc (A s a) = K1 -> q s <
 Proof.
   intros Hi R Ka. destruct (reach_reach2 _ _ R) as [o R2].
   destruct (inv2_reach _ _ _ Hi R2) as [HI [X1 X2 X3 X4 X5 X6 X7 X8]].
-  destruct (IG _ HI) as (_ & G2 & _ & Nu & _).
+  destruct (IG _ HI) as (_ & G2 & _ & _ & Nu & _).
   assert (Hh : (S (length (hk o)) <= length (hand s))%nat).
   { change (S (length (hk o))) with (length (a :: hk o)). apply NoDup_incl_length.
     - constructor; [rewrite X1; congruence | exact X2].
